@@ -11,13 +11,14 @@ EXPLANATION = ('A real Problem with explicit IndepVarComp outputs, auto-IVC-back
                'the later phases (final_setup, run_model) unchanged for independent variables; a second overlapping write wins on the '
                'overlap only.')
 BOUNDS = dict(names='absolute IVC output, promoted IVC output, promoted auto-IVC input (1-D and 2-D), the absolute name of an auto-IVC-backed input', values='arrays of the selected shape, or one scalar broadcast over the selection',
-              indices='None, int, negative int, slice, reversed slice, int list with negatives, tuple (2-D), om.slicer forms', units='None, declared units, prefixed/affine-related units (m/cm/mm/km/inch, degC/degF/degK)')
+              indices='None, int, negative int, slice, reversed slice, int list with negatives, tuples mixing ints / slices / index lists (2-D), om.slicer forms', units='None, declared units, prefixed/affine-related units (m/cm/mm/km/inch, degC/degF/degK)')
 STUBS = ['module-global float pass-through in general_utils/system/units']
 ASSUMPTIONS = ['reals; unit factors are float64 constants (1e-9 margin when a conversion is involved)']
 OUTSIDE = ['remote/distributed variables', 'discrete variables', 'set_val on a connected (non-independent) input followed by run_model: overwritten by the transfer, as documented']
 
 IDX = {'none': None, 'int': 1, 'neg': -1, 'slice': slice(0, 2), 'rev': slice(None, None, -2), 'list': [-1, 0], 'list3': [1, -3, 2]}
-IDX2 = {'none': None, 'row': 1, 'tuple': (0, slice(None)), 'tuple2': (slice(None), -1), 'elem': (1, 0), 'slicer': 'slicer'}
+IDX2 = {'none': None, 'row': 1, 'tuple': (0, slice(None)), 'tuple2': (slice(None), -1), 'elem': (1, 0), 'slicer': 'slicer',
+        'mixed': (slice(None), [0, 2]), 'mixed2': ([1, 0], slice(1, None)), 'fancy': ([0, 1], [2, 0])}
 UNITS = {'len': ['m', 'cm', 'mm', 'km', 'inch', None], 'temp': ['degC', 'degF', 'degK', None]}
 PHASES = ['pre', 'post_final', 'post_run']
 
